@@ -24,6 +24,10 @@ CHECKS = {
             "every observed normal-form output satisfies the stated shape predicates"),
     "C08": ("7/C08", "runtime monitoring: agenda / naive_bottom_up / treesum / expected_length observed on generated convergent grammars over 9 semirings under native, fifo and random agenda pop orders and several hash seeds, judged by an independent least-fixed-point solver (exact linear solve per SCC, Kleene+Newton otherwise)",
             "every observed total weight equals the reference least solution (exact for idempotent semirings and Q, 1e-9+1e-8 relative otherwise)"),
+    "C09": ("7/C09", "runtime monitoring: cfg@fst, fst@cfg, cfg@string, cfg@acceptor and truncate_length observed on generated grammar/transducer pairs, judged by a reference item system over the transducer sliced by the output string, and by the reference CFG oracle applied to the composed grammar's rule list",
+            "every observed composed grammar assigns every output string the relational-composition weight"),
+    "C10": ("7/C10", "runtime monitoring: FST composition (both association branches), evaluation, cross-sections, transpose, projections and constructors observed on generated transducer pairs with eps on both tapes, judged by a filter-free reference (slice, remove eps per operand, Hadamard product total)",
+            "every observed composed transducer relates every string pair with the sum over intermediate strings, each matching path pair once"),
     "C11": ("7/C11", "runtime monitoring: WFSA.__call__ / epsremove / total_weight observed on generated automata (eps cycles, parallel arcs, dead and unreachable states) over 6 semirings, judged by a dense reference (matrix closure; path enumeration as second opinion on acyclic machines)",
             "every observed string weight, eps-removed automaton and total weight equals the reference path sum (exact for Q / Boolean / MaxTimes)"),
     "C12": ("7/C12", "runtime monitoring: random rational expressions (+ . star plus reverse rename renumber, constants) built by the real library on generated operands; every sub-expression's value judged by the language-level definition computed from dense reference values of the operands",
@@ -36,6 +40,12 @@ CHECKS = {
             "every observed closure entry, least solution and SCC decomposition equals the reference"),
     "C16": ("7/C16", "runtime monitoring: all triples of per-type value pools (exact rational scores where possible, constants and freshly constructed equals) checked against the semiring and star laws",
             "every law instance over every observed triple holds (exact for rational scores, 1e-9 for float-only types)"),
+    "C17": ("7/C17", "runtime monitoring: to_cfg (both recursions), WFSA.to_bytes, CFG.to_bytes and merged converted automata observed on generated automata/grammars over 1-4-byte alphabets with colliding state names, judged by the dense reference and explicit UTF-8 segmentation",
+            "every observed converted grammar/automaton preserves string weights; byte strings that are not encodings get zero; merged conversions show no cross-talk"),
+    "C18": ("7/C18", "runtime monitoring: interegular_to_wfsa observed on generated regex ASTs x character sets x all short strings, judged by re.fullmatch cross-checked per string by a direct AST matcher; per-state mass monitor",
+            "every observed regex automaton accepts exactly the fully matching strings over the charset and is locally normalised"),
+    "C19": ("7/C19", "runtime monitoring: LarkStuff.char_cfg / byte_cfg (both recursions) observed on generated Lark grammars x candidate strings, sampled derivations and truncated/spliced byte strings, judged by substitution semantics computed from Lark's own compilation of the grammar text",
+            "every observed character-/byte-level grammar accepts exactly the substitution language / its UTF-8 encodings; N and V disjoint"),
     "C20": ("7/C20", "runtime monitoring: locally_normalize and add_EOS observed on generated grammars; per-head sums, treesum, proportionality (reference oracle applied to the output rule list) and EOS placement judged against the reference oracle",
             "every observed normalised grammar is proper and proportional and every observed EOS-wrapped grammar gives weight(x) to x+EOS and exactly zero to malformed EOS placements"),
 }
